@@ -180,7 +180,7 @@ def count_lines(root):
 
 def plan(tier, seed):
     n = 16
-    return [dict(part=i, seed=seed * 100 + i, nhist=40 if tier == 'quick' else 600, tier=tier) for i in range(n)] + [dict(kind='live', seed=seed, n=6 if tier == 'quick' else 100)]
+    return [dict(part=i, seed=seed * 100 + i, nhist=100 if tier == 'quick' else 600, tier=tier) for i in range(n)] + [dict(kind='live', seed=seed, n=20 if tier == 'quick' else 100)]
 
 
 def run_shard(sh):
